@@ -64,7 +64,19 @@ def pick_universe(rng, buckets, allkeys):
     n = rng.choice([3, 5, 8, 12, 20, 40])
     if rng.random() < 0.04:
         n = rng.choice([120, 400, 1200])  # many resizes, long tombstone runs
-    if r < 0.45:
+    if r < 0.2:
+        # a few keys in each of two or three ADJACENT buckets plus filler, enough keys to grow the table during the churn:
+        # displaced entries, tombstone reuse and re-insertion in list order on resize all interact here
+        b0 = rng.randrange(64)
+        ks = []
+        for d in range(rng.choice([2, 3])):
+            bk = buckets.get((b0 + d) % 64, [])
+            ks += rng.sample(bk, min(len(bk), rng.choice([2, 3, 4])))
+        fill = rng.choice([6, 10, 14, 20])
+        ks += rng.sample(allkeys, fill)
+        rng.shuffle(ks)
+        n = len(ks)
+    elif r < 0.45:
         # keys that collide modulo 64 (hence modulo 16 and 32 too): one or two buckets
         bs = [b for b in buckets.values() if len(b) >= 4]
         ks = []
@@ -103,7 +115,14 @@ def churn_shard(shard, nshards, seed, tier, exe, nhist):
         cands = [("k%d" % i).encode() for i in range(1500)] + [bytes([97 + i % 26, 97 + i // 26 % 26, 48 + i % 10]) for i in range(1500)]
         cands = list(dict.fromkeys(cands))
         res, cr = core.run_script(exe, [("h", ["HASHFN %d" % hashfn, "HASH " + " ".join("x" + c.hex() for c in cands)])], env=env, tag="c06")
-        if cr or "h" not in res:
+        if cr:
+            # computing the hash of a plain key hung or crashed: that is a lookup that does not answer
+            kind_, frame = cr[0].summary()
+            if shard == 0:
+                sh.violation("C06/%s/%s/hash-of-key" % ("hang" if cr[0].kind == "hang" else kind_, frame), "hashing candidate keys with string hash function %d %s" % (hashfn, "hung" if cr[0].kind == "hang" else "crashed (%s)" % kind_),
+                             {"driver": "jcdrv", "variant": "asan", "env": env, "script": ["HASHFN %d" % hashfn, "HASH x6b31 x6b32"], "stderr": cr[0].stderr[-2000:]})
+            continue
+        if "h" not in res:
             raise core.Inconclusive("hash probe failed")
         hv = [int(x) for x in res["h"][1].split()[1:]]
         buckets = {}
@@ -196,6 +215,8 @@ def churn_shard(shard, nshards, seed, tier, exe, nhist):
                     found, uid, isnull = int(f[1]), int(f[2]), int(f[3])
                     if bool(found) != st[2] or (st[2] and ((st[3] is None) != bool(isnull) or (st[3] is not None and uid != st[3]))) or f[4] != "same=1":
                         key, what = "lookup", "lookup of %r gave %s, model says present=%s value=%s" % (st[1][:20], f[1:], st[2], st[3])
+                    elif f[5] != "exists=%d" % found or f[6] != "noobj=0,1":
+                        key, what = "lookup-corner-form", "get_ex without result pointer / without object: %s (found=%d)" % (f[5:], found)
                     sh.count("op.get")
                 elif k == "snap":
                     d = dict(x.split("=", 1) for x in lines[li].split()[1:])
@@ -251,18 +272,18 @@ def run(tier, seed):
     maxlen = 6 if tier == "quick" else 7
     jobs = []
     for size in (1, 2, 3, 4, 5):
-        for hk in (0, 1, 2, 3):
+        for hk in (0, 1, 2, 3, 4, 5):
             nsub = 1 if tier == "quick" else 8
             for sub in range(nsub):
                 jobs.append((size, hk, maxlen, sub, nsub))
     if tier == "thorough":
         for size in (2, 3, 4):
-            for hk in (1, 3):
+            for hk in (1, 3, 4):
                 for sub in range(32):
                     jobs.append((size, hk, 8, sub, 32))
     sh = core.parallel(lhenum_job, exe=bdir + "/lhenum", jobs=jobs)
     chk.absorb(sh)
-    sh = core.parallel(churn_shard, seed=seed, tier=tier, exe=bdir + "/jcdrv", nhist=1920 if tier == "quick" else 16000)
+    sh = core.parallel(churn_shard, seed=seed, tier=tier, exe=bdir + "/jcdrv", nhist=3840 if tier == "quick" else 16000)
     chk.absorb(sh)
     chk.extra["enumerated_completely"] = "all sequences of length <= %d over {add,delete,lookup} x 4 keys on lh_table_new(size 1..5) x 4 caller-supplied hash functions" % maxlen
     chk.exhaustive = False
